@@ -1,4 +1,5 @@
 (* line protocol:  <pps> <chunk> <chunk> ...
+   or:  H <cfg_limit: - | n> <cfg_trim: 0|1> <given: N | - | colon-separated T | L<n> | O>   ->  H <N | - | list>   (_handle_post_processors)
    pps: '-' or colon-separated T | L<n>   ;  chunk: 'e' or dot-separated decimal code points
    output: W <file as dot-separated code points or e>   L <linewise spec of concat> *)
 open Model
@@ -16,11 +17,27 @@ let parse_pps s =
   List.map (fun t -> if t = "T" then PTrim else PLimit (limitEmptyLines_init (z_of_int (int_of_string (String.sub t 1 (String.length t - 1))))))
     (String.split_on_char ':' s)
 
+let rec int_of_z = function Z0 -> 0 | Zpos p -> int_of_pos p | Zneg p -> - (int_of_pos p)
+let parse_kinds s =
+  if s = "-" then [] else
+  List.map (fun t -> if t = "T" then KTrim else if t = "O" then KOther
+                     else KLimit (z_of_int (int_of_string (String.sub t 1 (String.length t - 1)))))
+    (String.split_on_char ':' s)
+let show_kinds l =
+  if l = [] then "-" else
+  String.concat ":" (List.map (function KTrim -> "T" | KOther -> "O" | KLimit z -> "L" ^ string_of_int (int_of_z z)) l)
+
 let () =
   try
     while true do
       let line = input_line stdin in
       match String.split_on_char ' ' (String.trim line) with
+      | ["H"; lim; trim; given] ->
+        let cl = if lim = "-" then None else Some (z_of_int (int_of_string lim)) in
+        let g = if given = "N" then None else Some (parse_kinds given) in
+        (match handle_pps cl (trim = "1") g with
+         | None -> print_string "H N\n"
+         | Some l -> print_string ("H " ^ show_kinds l ^ "\n"))
       | pps :: chunks ->
         let ps = parse_pps pps in
         let cs = List.map parse_chunk (List.filter (fun t -> t <> "") chunks) in
